@@ -159,11 +159,13 @@ def _run(plan: dict, sim: sched.Sim, ch: sched.Chooser, dep: deploy.Deployment) 
             return False
         return True
 
-    def sweep(st: Any, via: str) -> bool:
+    slow = "rdb" in kind or "cached" in kind
+
+    def sweep(st: Any, via: str, light: bool = False) -> bool:
         state["sweeps"] += 1
         studies = sorted(h for h in env.real if "S" in h)
         trials = sorted(h for h in env.real if "T" in h)
-        for op in gen.sweep_ops(None, studies, trials):
+        for op in gen.sweep_ops(None, studies, trials, light=light, medium=slow):
             r = ops.apply_real(st, op, env)
             c = ops.apply_model(m, op, env, r)
             if c[0] == "diff":
@@ -197,7 +199,9 @@ def _run(plan: dict, sim: sched.Sim, ch: sched.Chooser, dep: deploy.Deployment) 
             if not do(state["st"], op, "client"):
                 return
             if op.get("sweep_after"):
-                if not sweep(state["st"], "client-sweep"):
+                # mid-history sweeps on SQLite deployments use the light getter set (cost);
+                # the full set runs at every observe and at the end
+                if not sweep(state["st"], "client-sweep", light=slow):
                     return
         sweep(state["st"], "client-sweep")
         if state["verdict"] is None:
